@@ -97,6 +97,7 @@ def run_both(story, ops, rng):
             return []          # the opening passage itself fails: no engine to compare
         out.append((("init",), ("ok",), ("ok",), R.view(em), R.view(eb), None, None))
         names = list(story["passages"].keys())
+        slots = [None, None]
         for op in ops:
             res = []
             docs = [None, None]
@@ -123,7 +124,17 @@ def run_both(story, ops, rng):
                             e.reset_one_time_choices(); o = ("ok",)
                         elif k == "read":
                             R.read_battery(e); o = ("ok",)
-                        elif k == "saveload":
+                        elif k == "save":
+                            slots[idx] = json.loads(json.dumps(e.save_state())); o = ("ok",)
+                        elif k == "load":
+                            if slots[idx] is not None:
+                                e.load_state(slots[idx])          # the same engine, the same document object
+                            o = ("ok",)
+                        elif k == "inputs":
+                            e.submit_inputs({op[1]: op[2]}); o = ("ok",)
+                        elif k == "badload":
+                            o = ("ok",)                            # exercised on the model side only (R.run_history)
+                        elif k in ("saveload", "reload"):
                             d = json.loads(json.dumps(e.save_state()))
                             docs[idx] = {kk: vv for kk, vv in d.items() if kk not in ("timestamp", "hooks", "join_section_index")}
                             fresh = (main_cls, br_cls)[idx](copy.deepcopy(story))
@@ -269,12 +280,12 @@ def run(tier: str, seed: int) -> int:
             continue
         ops = []
         for _ in range(r.randint(3, max_ops)):
-            ops.extend([("saveload",)] if r.random() < 0.12 else G.gen_ops(r, 1))
+            ops.extend([("saveload",)] if r.random() < 0.12 else G.gen_ops(r, 1, saveload=True))
         both = run_both(story, ops, r)
         nontrivial = False
         for k, (op, om, ob, vm, vb, dm, db) in enumerate(both):
             stats["ops"][op[0]] = stats["ops"].get(op[0], 0) + 1
-            if op[0] == "saveload":
+            if op[0] in ("saveload", "reload"):
                 stats["saveloads"] += 1
                 nontrivial = True
                 if dm != db:
